@@ -131,7 +131,7 @@ def run(prog, tier) -> Result:
                         rem0 = rem0 - st.rnd(0, (a_self * rs[i] / tot) / qn) * qn
                     rem0 = st.norm(rem0)
                     neg_known = None
-                    k1, k2 = rem0.key(), (RF.const(0) - rem0).key()
+                    k1, k2 = st.canon_diff(rem0).key(), st.canon_diff(RF.const(0) - rem0).key()
                     for k, op_, r_ in st.cmp_facts:
                         if k == k1 and op_ == "<":
                             neg_known = r_
